@@ -200,7 +200,7 @@ def absop(op, A, B):
         # the base-class method first builds the result in the LEFT operand's class
         out.append((sign_violated(K, primary) if K in spec.SIGN else False, "ValueError"))
         value = primary
-        if op == "sub" and K != Kb and K in ("Angle", "TimeInterval"):
+        if op == "sub" and K != Kb and K in ("Angle", "TimeInterval") and subkind_minus_base_adds(K):
             value = L.add(x, yb)        # library behaviour (known finding KF-C06-subkind-minus-base-adds)
         out.append((True, OK(res, ua, value)))
         return out
@@ -213,6 +213,27 @@ def absop(op, A, B):
     val = L.mul(X, Y) if op == "mul" else _safe_div(X, Y)
     out.append((True, OK(res, CROSS_UNIT[res], val)))
     return out
+
+
+_SUBKIND_PROBE = {}
+
+
+def subkind_minus_base_adds(K):
+    """Known finding D11: `Angle - AngularPosition` and `TimeInterval - Time` return the SUM.  Which of the two candidate
+    semantics (the recorded deviation / the arithmetic difference) the abstract contract states is selected by ONE concrete
+    probe of the real operator; the selected statement is then proved for all operands by the helper clause as usual.  So a tree
+    in which the deviation has been repaired verifies too (and the known finding is then simply not reported)."""
+    if K not in _SUBKIND_PROBE:
+        import gearpy.units as GU
+        try:
+            if K == "Angle":
+                r = GU.Angle(3, "rad") - GU.AngularPosition(1, "rad")
+            else:
+                r = GU.TimeInterval(3, "sec") - GU.Time(1, "sec")
+            _SUBKIND_PROBE[K] = float(r.value) == 4.0
+        except Exception:           # noqa: BLE001
+            _SUBKIND_PROBE[K] = True
+    return _SUBKIND_PROBE[K]
 
 
 def _safe_div(a, b):
